@@ -8,6 +8,12 @@ ENTRY = {
             "no fused LIMIT), sort_offset (LIMIT + OFFSET: LimitExec over the external sort), sort_f1 (fused LIMIT), sort_f2 (other NULL placement over nullable keys, with its "
             "neutraliser run), sort_f3 (BOOLEAN key, with its neutraliser run), join_inner (int/double/string keys), join_outer (LEFT/RIGHT/FULL: the spill path must fail explicitly), "
             "join_f5 (DATE/BOOLEAN key), agg (GROUP BY 1-2 NULL-free keys, COUNT/SUM/MIN/MAX), agg_nullkeys (keys holding NULLs, with its neutraliser run WHERE keys IS NOT NULL); every ordered statement carries the unique id as last key (total order). "
+            "kind agg-spill (6 of 19 rotation slots, >= 25 % of the cases): aggregations the fused streaming path does not serve, over own tables g0/g1 (170-400 / 30-180 rows, 1-6 batches) whose "
+            "key columns BIGINT / VARCHAR / DATE / BOOLEAN / DOUBLE hold 10-50 % NULLs, 1-3 key columns: spill_distinct (SELECT DISTINCT), spill_union (UNION), spill_cdist (GROUP BY + "
+            "COUNT/SUM(DISTINCT)), spill_groups (GROUP BY with 100+ groups, wide BIGINT key); run unlimited and under 2-3 limits from {64, 200, 1024, 4096, 16384, input/3, input/12, 8x input}; "
+            "the harness observes per run whether the engine created its spill directory (tags part:yes / part:no / part+same = a partitioned run that returned the unlimited answer); the limited "
+            "answers are compared with the unlimited one also when that one already shows the known NULL-key splitting (base:nullsplit); a difference is attributed to C08-F6 only if the answer is "
+            "exactly the reference with NULL-key groups split (NULL-free-key rows identical, re-aggregation by key = reference) - a lost row never is. "
             "non-trivial: non-empty unlimited answer and at least one limited run that returned the same answer; thorough tier adds inputs of 20 000+ rows (runs longer than the "
             "8192-row merge buffer: finding C08-F4); distinct by sha256 of the canonical case",
     "trusted_base": COMMON_TB + [
@@ -22,7 +28,8 @@ ENTRY = {
         "an explicit error under a limit is an allowed outcome (the property says so); a panic never is",
         "NaN / -0.0 keys are not generated; floats are dyadic",
     ],
-    "min_tags": {"regime:fits": 1, "regime:runs<=8": 1, "regime:multi_pass": 1, "kind:sort": 1, "kind:join": 1, "kind:agg": 1, "lim:same": 1, "stratum:sort_clean": 1, "stratum:sort_offset": 1, "stratum:join_inner": 1, "stratum:agg": 1},
+    "min_tags": {"regime:fits": 1, "regime:runs<=8": 1, "regime:multi_pass": 1, "kind:sort": 1, "kind:join": 1, "kind:agg": 1, "lim:same": 1, "stratum:sort_clean": 1, "stratum:sort_offset": 1, "stratum:join_inner": 1, "stratum:agg": 1,
+                 "kind:agg-spill": 15, "part:yes": 8, "part+same": 4, "stratum:spill_distinct": 2, "stratum:spill_union": 2, "stratum:spill_cdist": 2, "stratum:spill_groups": 2},
     "manifest": {
         "category": "proof",
         "text": "Lean theorems: for ANY total preorder and ANY cut of the input into runs, the streaming k-way merge of the sorted runs (earliest run wins ties), and multi-pass merging "
